@@ -456,6 +456,13 @@ theorem generation_succeeds (d : Definitions) (h : wfDefinitions d = true) :
     ∃ cs, mapDefinitions d = .ok cs :=
   mapDefinitions_ok d h
 
+/-- **one_service_per_operation**: whenever generation succeeds, the classes contain
+exactly one service class (tag `BindingOperation`) per port and distinctly named
+operation of the port's binding — no operation is dropped, none is described twice. -/
+theorem one_service_per_operation (d : Definitions) (cs : List Cls) (h : mapDefinitions d = .ok cs) :
+    (cs.filter isService).length = ((d.services.flatMap (·.ports)).map (portOperations d)).sum :=
+  mapPorts_services d _ cs h
+
 namespace Witness
 def soapBinding : Ext := ⟨ws!"{http://schemas.xmlsoap.org/wsdl/soap/}binding",
   [(ws!"transport", ws!"http://schemas.xmlsoap.org/soap/http"), (ws!"style", ws!"rpc")]⟩
